@@ -520,7 +520,7 @@ func (w *Worker) lookup(g *G, fr *Frame, in *ssa.Lookup) Value {
 	key := w.get(fr, in.Index)
 	switch xv := x.(type) {
 	case StringV:
-		idx := key.(*Term)
+		idx := ext64(key.(*Term), isSigned(in.Index.Type()))
 		n := xv.Len()
 		i, ok := w.boundsCheck(g, idx, n, isSigned(in.Index.Type()))
 		if !ok {
@@ -853,6 +853,43 @@ func (w *Worker) callBuiltin(g *G, fr *Frame, instr ssa.Instruction, b *ssa.Buil
 			return nil
 		}
 		return args[0]
+	case "SliceData":
+		s := args[0].(SliceV)
+		if s.O == nil {
+			return PtrV{}
+		}
+		return PtrV{O: s.O, Path: appendPath(s.Path, s.Off)}
+	case "StringData":
+		s := args[0].(StringV)
+		sl := w.bytesToSlice(s.Bytes())
+		if sl.O == nil {
+			return PtrV{}
+		}
+		return PtrV{O: sl.O, Path: []int{0}}
+	case "String":
+		p := args[0].(PtrV)
+		n := constInt(args[1])
+		if n == 0 {
+			return mkString("")
+		}
+		k := len(p.Path) - 1
+		arr := getPath(w.st.load(p.O), p.Path[:k]).(*ArrayV)
+		bs := make([]*Term, n)
+		for i := range bs {
+			bs[i] = arr.E[p.Path[k]+i].(*Term)
+		}
+		return mkSymString(bs)
+	case "Slice":
+		p := args[0].(PtrV)
+		n := constInt(args[1])
+		if p.O == nil || n == 0 {
+			return SliceV{}
+		}
+		k := len(p.Path) - 1
+		arr := getPath(w.st.load(p.O), p.Path[:k]).(*ArrayV)
+		return SliceV{O: p.O, Path: append([]int(nil), p.Path[:k]...), Off: p.Path[k], Len: n, Cap: len(arr.E) - p.Path[k]}
+	case "Sizeof":
+		return BVu(uint64(w.e.sizes.Sizeof(b.Type().(*types.Signature).Params().At(0).Type())), 64)
 	case "ssa:deferstack":
 		return DeferStackV{G: g.id, Depth: len(g.frames) - 1}
 	}
